@@ -32,13 +32,13 @@ where
     let ks: Vec<BigUint> = vec![BigUint::zero(), BigUint::from(1u32), BigUint::from(2u32), alpha::pow2(63), alpha::pow2(64) + 1u32, alpha::pow2(255) - 1u32];
     let kl: Vec<[u64; 4]> = ks.iter().map(limbs4).collect();
     // precomp_256 tables for every point
-    let tables: Vec<Vec<C::A>> = (0..n)
-        .map(|i| {
-            let mut pre = vec![C::A::zero(); 256];
-            affs[i].precomp_256(&mut pre);
-            pre
-        })
-        .collect();
+    // one buffer re-used for every point in turn (so each table is written over the previous point's table)
+    let mut buf = vec![C::A::zero(); 256];
+    let mut tables: Vec<Vec<C::A>> = vec![vec![]; n];
+    for i in (0..n).rev() {
+        affs[i].precomp_256(&mut buf);
+        tables[i] = buf.clone();
+    }
     for len in 0..=max_list {
         // paths: pippinger windows 1..=20, default, precomp_256
         // the bucket reduction costs 2^w group additions per window position: all windows 1..=12 on the full product,
